@@ -1,4 +1,5 @@
 from ..jobs import CH, SMT
+from ._util import tjobs
 
 H = "vf.harness.walk"
 META = {
@@ -30,4 +31,8 @@ def jobs(tier):
                                              "Visitor.trace_statements", "UnitarySerializedEmulator._make_subcircuit"],
                                   note="state vector of every subcircuit == U_k..U_1|0> computed by an independent pure-Python tensor-product reference over the "
                                        "reference meaning (lets/overrides applied, macros expanded, loops unrolled, aliases resolved)"))
+    for t in (["t_alias_macro", "t_chain", "t_macro_nested", "t_blocks"] if q else ["t_alias_macro", "t_chain", "t_macro_nested", "t_blocks", "t_macro_sub", "t_slice_let", "t_seqfirst", "t_let_arg", "t_macro_idx"]):
+        out.extend(tjobs(f"{H}:state_template", t, tier, fixed={"mask": 0, "o0": 0}, timeout=600 if q else 2400, name=f"c03_template_{t}", base="state_template",
+                         functions=["run_jaqal_circuit", "UnitarySerializedEmulator._make_subcircuit", "TraceSerializer"],
+                         note=f"{t} bracketed for execution: emulated state of every subcircuit == reference product over the reference meaning"))
     return out
